@@ -44,6 +44,7 @@ def run_property(pid, tier):
         dropped_obs = []
         for it in range(12):
             opts = {"active": active, "tier": tier, "seed": int(os.environ.get("VERIF_SEED", "0"))}
+            opts.update(part.get("opts", {}))
             jobs = [(part["module"], u, opts, tier, REPO, second) for u in part["units"]]
             recs = runner.run_units(jobs)
             if not hd:
@@ -67,19 +68,22 @@ def run_property(pid, tier):
             r["module"] = part["module"]
             r["include_all"] = bool(part.get("include_all"))
             r["also_tags"] = list(part.get("also_tags", ()))
+            r["exclude"] = list(part.get("exclude", ()))
         records.extend(recs)
         if dropped_obs:
             records.append({"unit": "houdini", "title": "invariant conjuncts that are not inductive", "kind": "houdini",
                             "functions": [], "paths": 0, "live_paths": 1, "time": 0, "obligations": dropped_obs,
                             "noops": [], "inlined": [], "contracts_used": [], "lib_used": [], "samples": [],
                             "notes": [], "error": None, "module": part["module"],
-                            "also_tags": list(part.get("also_tags", ()))})
+                            "also_tags": list(part.get("also_tags", ())), "exclude": list(part.get("exclude", ()))})
     return records, houdini_log
 
 
 def rel(ob, r, pid):
     """Is obligation `ob` of unit record `r` one of property `pid`'s?  A part of the registry may take all obligations
     of its units (include_all) or those tagged with other properties the statement of `pid` builds on (also_tags)."""
+    if any(x in ob["name"] for x in r.get("exclude", ())):
+        return False
     return relevant(ob, pid) or bool(r.get("include_all")) or any(t in ob["props"] for t in r.get("also_tags", ()))
 
 
